@@ -31,6 +31,12 @@ func init() {
 	register(&Rule{ID: "C04.8", Prop: "C04", Min: 2,
 		Text: "a refused write is reported with the 102 sentinel: same obligations as C07.5/C07.9",
 		Run:  runC07_5})
+	register(&Rule{ID: "C04.10", Prop: "C04", Min: 5,
+		Text: "a published call status is stable: pooled context inputs never get a status object installed or re-installed by the framework (same obligations as C15.2) - the caller's CallCmd keeps the pointer of the reply's status, so a recycled object would change under it",
+		Run:  runC15_2})
+	register(&Rule{ID: "C04.11", Prop: "C04", Min: 6,
+		Text: "every status on the wire is decoded: on the receive path of each protocol the decode of the frame's status field is not made conditional on the length or content of that field (other than emptiness) - `code=7` is as short as `code=0`",
+		Run:  runC04_11})
 	register(&Rule{ID: "C04.9", Prop: "C04", Min: 1,
 		Text: "the status handed to the caller is not storage owned by a pooled message: Message.Status(autoInit) installs a freshly allocated Status (the caller's *Status must not change when the pooled context reads its next frame)",
 		Run:  runC04_9})
@@ -456,5 +462,123 @@ func runProtoCoverage(c *Ctx, only []string) {
 				c.Check(have, key, p.Pos(dir.fn.Pos()), "field handled", fmt.Sprintf("%s.%s never touches Message.%s: the %s is not carried over this protocol (%s)", im.name, map[string]string{"pack": "Pack", "unpack": "Unpack"}[dir.name], field, strings.TrimPrefix(strings.TrimPrefix(field, "Set"), "Unmarshal"), map[bool]string{true: "a failed call looks OK to the caller", false: "the field is lost in transit"}[f == "Status"]))
 			}
 		}
+	}
+}
+
+func runC04_11(c *Ctx) {
+	p := c.P
+	decodeQ := p.MethodObj(statusPkg, "Status", "DecodeQuery")
+	unJSON := p.MethodObj(statusPkg, "Status", "UnmarshalJSON")
+	n := 0
+	seen := map[*ssa.Function]bool{}
+	for _, im := range protoImpls(p) {
+		if im.unpack == nil {
+			continue
+		}
+		for _, fn := range recvReach(p, im.unpack) {
+			if seen[fn] {
+				continue
+			}
+			seen[fn] = true
+			for _, call := range AllCalls(fn) {
+				if !IsCallTo(call, decodeQ, unJSON) {
+					continue
+				}
+				n++
+				arg := CallArgs(call)[0]
+				// the values the argument is made of (bounds of the slice, the converted string ...)
+				src := map[ssa.Value]bool{}
+				var collect func(v ssa.Value, d int)
+				collect = func(v ssa.Value, d int) {
+					if v == nil || src[v] || d > 5 {
+						return
+					}
+					if _, isC := v.(*ssa.Const); isC {
+						return
+					}
+					src[v] = true
+					switch x := v.(type) {
+					case *ssa.Slice:
+						collect(x.Low, d+1)
+						collect(x.High, d+1)
+					case *ssa.Convert:
+						collect(x.X, d+1)
+					case *ssa.ChangeType:
+						collect(x.X, d+1)
+					case *ssa.Call:
+						if x.Call.StaticCallee() != nil || x.Call.IsInvoke() {
+							for _, a := range x.Call.Args {
+								if bufTrack(a.Type()) {
+									collect(a, d+1)
+								}
+							}
+							if x.Call.IsInvoke() {
+								break
+							}
+						}
+					}
+				}
+				collect(arg, 0)
+				mentions := func(v ssa.Value) bool {
+					for k := 0; k < 4 && v != nil; k++ {
+						if src[v] {
+							return true
+						}
+						switch x := v.(type) {
+						case *ssa.Convert:
+							v = x.X
+						case *ssa.ChangeType:
+							v = x.X
+						case *ssa.Call:
+							if b, isB := x.Call.Value.(*ssa.Builtin); isB && b.Name() == "len" {
+								v = x.Call.Args[0]
+							} else {
+								return false
+							}
+						default:
+							return false
+						}
+					}
+					return false
+				}
+				bad := ""
+				for _, blk := range fn.Blocks {
+					ifi, isIf := blk.Instrs[len(blk.Instrs)-1].(*ssa.If)
+					if !isIf {
+						continue
+					}
+					cv, _ := stripNot(ifi.Cond)
+					bo, isB := cv.(*ssa.BinOp)
+					if !isB {
+						continue
+					}
+					var other ssa.Value
+					switch {
+					case mentions(bo.X):
+						other = bo.Y
+					case mentions(bo.Y):
+						other = bo.X
+					default:
+						continue
+					}
+					// only one of the two edges leads to the decode?
+					d0 := BlockDominatesInstr(blk.Succs[0], call)
+					d1 := BlockDominatesInstr(blk.Succs[1], call)
+					if d0 == d1 {
+						continue
+					}
+					if k, isC := ConstIntOf(other); isC && k == 0 {
+						continue // emptiness
+					}
+					bad = p.InstrPos(ifi)
+				}
+				c.fact("control-dependence")
+				key := "status decode in " + FnName(fn)
+				c.Check(bad == "", key, p.InstrPos(call), "not conditional on the status field's length/content", "the decode of the received status is skipped depending on the field's length or content (test at "+bad+"): a non-OK status of that shape arrives as OK at the caller")
+			}
+		}
+	}
+	if n < 6 {
+		c.Undec("status decode sites", "", fmt.Sprintf("found %d, expected >= 6", n))
 	}
 }
